@@ -404,8 +404,10 @@ def fresh_names(chk, rid):
   av = repo.func('rule_translate.NamesAllocator.AllocateVar')
   inc = [x for x in walk_local(av.node) if isinstance(x, ast.AugAssign) and
          isinstance(x.op, ast.Add) and 'aux_var_num' in norm(x.target)]
-  fmt = [x for x in walk_local(av.node) if isinstance(x, ast.BinOp) and isinstance(x.op, ast.Mod)
-         and 'aux_var_num' in norm(x.right)]
+  # the returned name is built from the counter (whatever the formatting idiom)
+  avv = FnView(repo, 'rule_translate.NamesAllocator.AllocateVar')
+  fmt = [r for n_, r in avv.returns() if r.value is not None and
+         'aux_var_num' in norm(avv.expand(r.value), 1000)]
   chk.ob(rid, bool(inc) and bool(fmt), None, 'AllocateVar numbers variables with a counter it increments',
          'variable names can repeat', fi=av)
 
